@@ -291,3 +291,26 @@ impl Validate {
         }
     }
 }
+
+/// Verification hook (compiled only under Miri, `cfg(miri)`; never part of a normal build).
+///
+/// Miri's isolated environment has no wall clock (`CLOCK_REALTIME`), and the only use this
+/// module makes of one is the informational `timestamp` member of the validation result.
+/// Under Miri the two `chrono::Utc::now().to_rfc3339()` calls above resolve to this local
+/// stand-in, so the handler can be interpreted with isolation on — i.e. with Miri's seeded,
+/// exactly repeatable thread scheduler — by /verif's micro-schedule stage.
+#[cfg(miri)]
+mod chrono {
+    pub struct Utc;
+    pub struct Stamp;
+    impl Utc {
+        pub fn now() -> Stamp {
+            Stamp
+        }
+    }
+    impl Stamp {
+        pub fn to_rfc3339(&self) -> String {
+            "2026-10-02T12:00:00+00:00".to_string()
+        }
+    }
+}
